@@ -38,6 +38,15 @@ pub fn gen_case(seed: u64, p: &Profile) -> Case {
     let split_after = if big { *[Some(20usize), Some(50), Some(250)].choose(&mut rng).unwrap() } else { *[None, None, Some(1usize), Some(20), Some(250), Some(200), Some(300)].choose(&mut rng).unwrap() };
     // automatic tree counts grow with the dimension (hundreds of trees for 256 dims): keep them for small dims
     let n_trees = if dims <= 16 { *[None, Some(1usize), Some(3), Some(5)].choose(&mut rng).unwrap() } else { *[Some(1usize), Some(2), Some(3), Some(5)].choose(&mut rng).unwrap() };
+    // a fifth of the cases: build large, delete almost everything and rebuild (tree-node ids below the
+    // surviving ones become free), then grow again under a small hint (buckets overflow batch after batch
+    // while fresh nodes take the freed low ids)
+    // another fifth: everything under a tiny hint with small buckets (sub-trees built from the first 200 items
+    // of a bucket, the rest inserted into them: many lone-item children while fresh node ids are still low)
+    let tiny_hints = seed % 5 == 1 && dims <= 64;
+    let (n0, split_after) = if tiny_hints { (*[260usize, 450, 1000].choose(&mut rng).unwrap(), *[None, Some(1usize), Some(2)].choose(&mut rng).unwrap()) } else { (n0, split_after) };
+    let shrink_grow = seed % 5 == 0;
+    let (n0, split_after) = if shrink_grow { (*[450usize, 1000].choose(&mut rng).unwrap(), if dims <= 130 { *[None, Some(20usize)].choose(&mut rng).unwrap() } else { Some(20) }) } else { (n0, split_after) };
     let mut ops = Vec::new();
     let mut next_id = 0u32;
     let mut live: Vec<u32> = Vec::new();
@@ -47,7 +56,7 @@ pub fn gen_case(seed: u64, p: &Profile) -> Case {
         live.push(next_id);
         next_id += rng.gen_range(1..3);
     }
-    let rounds = rng.gen_range(1..=3);
+    let rounds = if shrink_grow { 3 } else { rng.gen_range(1..=3) };
     for r in 0..rounds {
         if r > 0 {
             let k = *[1usize, 50, 201, 400].choose(&mut rng).unwrap();
@@ -55,6 +64,11 @@ pub fn gen_case(seed: u64, p: &Profile) -> Case {
                 0 => 0,
                 1 => 10.min(live.len()),
                 _ => live.len() / 2,
+            };
+            let (k, j) = match (shrink_grow, r) {
+                (true, 1) => (1, live.len() - rng.gen_range(20..60)),
+                (true, _) => (*[400usize, 1000, 2500].choose(&mut rng).unwrap(), 0),
+                _ => (k, j),
             };
             for _ in 0..j {
                 let i = rng.gen_range(0..live.len());
@@ -79,7 +93,9 @@ pub fn gen_case(seed: u64, p: &Profile) -> Case {
         let opts = BuildOpts {
             n_trees,
             split_after: if rng.gen_bool(0.85) { split_after } else { None },
-            memory: memories(&mut rng, live.len()),
+            memory: if tiny_hints {
+                *[Some(0usize), Some(0), Some(4096), Some(2 * 4096)].choose(&mut rng).unwrap()
+            } else if shrink_grow && r == 2 { *[Some(0usize), Some(4096), Some(3 * 4096), Some(live.len() * item_bytes / 2)].choose(&mut rng).unwrap() } else { memories(&mut rng, live.len()) },
             threads: *[1usize, 2, 4, 8].choose(&mut rng).unwrap(),
             rng_seed: rng.gen_range(0..1u64 << 40),
         };
